@@ -257,6 +257,10 @@ func runCase(t *testing.T, chk *Check, tape *simrt.Tape, caseSeed uint64, cfg *C
 
 func (c *Case) identity() uint64 {
 	h := fnv.New64a()
+	if len(c.hashes) == 0 {
+		// no scheduled bubble in this case: the tape itself identifies the execution
+		fmt.Fprintf(h, "%v|", c.T.Rec)
+	}
 	fmt.Fprintf(h, "%s|%v|%v|%s", c.class, c.keyParts, c.hashes, c.outcome)
 	return h.Sum64()
 }
